@@ -16,7 +16,8 @@ Deliberately small subset; anything else is REFUSED (a refusal = broken tie, rep
                `self.meta.get('include', True)` pattern -> `withInclude include …`,
                constructors `cls(...)`/`RegionBoundingBox(...)` -> `BBox.mk? …`, `slice(a, b)`,
                `RegionBoundingBox.from_float(a, b, c, d)` -> `BBox.fromFloat a b c d`, tuples, None,
-               `np.subtract(a, b, dtype=float)` -> `a - b`.
+               `np.subtract(a, b, dtype=float)` -> `a - b`, `<array attr>.min()/.max()` -> scalar parameters,
+               `np.sqrt(e)` -> `sqrtF e` with `sqrtF` a function parameter, `bbox1 | bbox2` -> `BBox.union`.
 
 Each translated function becomes `def <name> (params in alphabetical order) : <type> := <expr>` in
 `lean/RegionsVerif/Gen/Formulas.lean`; `Bridge/Formulas.lean` proves each equal to the hand-written
@@ -103,6 +104,8 @@ class Tr:
                 return f'({a} ^ 2)'
             if isinstance(n.op, ast.BitAnd):
                 return f'({a} ∧ {b})'
+            if isinstance(n.op, ast.BitOr) and a.endswith('bounding_box') and b.endswith('bounding_box'):
+                return f'(BBox.union {a} {b})'      # RegionBoundingBox.__or__ = union
             raise Refuse(f'binop {type(n.op).__name__}')
         if isinstance(n, ast.BoolOp):
             op = ' ∧ ' if isinstance(n.op, ast.And) else ' ∨ '
@@ -144,6 +147,16 @@ class Tr:
     def call(self, n):
         f = self.fname(n)
         args = n.args
+        # <array attribute>.min() / .max()  ->  scalar parameter <attr>_min / <attr>_max
+        if (isinstance(n.func, ast.Attribute) and n.func.attr in ('min', 'max') and not args and not n.keywords
+                and isinstance(n.func.value, ast.Attribute)):
+            name = flat(n.func.value) + '_' + n.func.attr
+            self.params.add(name)
+            return name
+        # np.sqrt(e): the square root is a function parameter of the generated definition
+        if f == 'np.sqrt' and len(args) == 1 and not n.keywords:
+            self.params.add('sqrtF')
+            return f'(sqrtF {self.expr(args[0])})'
         if f in ('int', 'float') and len(args) == 1:
             return self.expr(args[0])
         if f == 'np.floor':
@@ -290,6 +303,10 @@ GROUPS = {'C19': [
     ('rectangle_bounding_box', 'regions.shapes.rectangle:RectanglePixelRegion.bounding_box', 'α', 'Except BBoxErr BBox'),
     ('line_bounding_box', 'regions.shapes.line:LinePixelRegion.bounding_box', 'α', 'Except BBoxErr BBox'),
     ('point_bounding_box', 'regions.shapes.point:PointPixelRegion.bounding_box', 'α', 'Except BBoxErr BBox'),
+    ('ellipse_bounding_box', 'regions.shapes.ellipse:EllipsePixelRegion.bounding_box', 'α', 'Except BBoxErr BBox'),
+    ('polygon_bounding_box', 'regions.shapes.polygon:PolygonPixelRegion.bounding_box', 'α', 'Except BBoxErr BBox'),
+    ('compound_bounding_box', 'regions.core.compound:CompoundPixelRegion.bounding_box', 'α', 'Except BBoxErr BBox'),
+    ('annulus_bounding_box', 'regions.shapes.annulus:AnnulusPixelRegion.bounding_box', 'α', 'BBox'),
 ], 'C15': [
     ('pixcoord_rotate', 'regions.core.pixcoord:PixCoord.rotate', 'α', 'Pt α'),
 ]}
@@ -306,6 +323,10 @@ def translate_one(name, src, numtype, rtype, ret='plain'):
     for p in params:
         if p == 'incl':
             ptypes.append('(incl : Include)')
+        elif p == 'sqrtF':
+            ptypes.append(f'(sqrtF : {numtype} → {numtype})')
+        elif p.endswith('bounding_box'):
+            ptypes.append(f'({p} : BBox)')
         else:
             ptypes.append(f'({p} : {numtype})')
     return params, f'def {name} ' + ' '.join(ptypes) + f' : {rtype} :=\n  {expr}\n'
